@@ -160,4 +160,73 @@ def specOne (lastValOffset : Int) : List (Nat × Nat) → Nat → Rng
 def specLookup (tbl : List (Nat × Nat)) (lastValOffset : Int) (values : List Nat) : List Rng :=
   values.map (specOne lastValOffset tbl)
 
+/-! ### label names -/
+
+/-- `BinaryReader.LabelNames`: the keys of the postings map — one per run of equal names in the
+    (name-sorted) postings offset table — without the name of the all-postings key ("", rank
+    `emptyName`), sorted.  Names are ranks; the table lists them in increasing order. -/
+def labelNames (emptyName : Option Nat) : List Nat → List Nat
+  | [] => []
+  | [a] => if some a = emptyName then [] else [a]
+  | a :: b :: rest =>
+    if a = b then labelNames emptyName (b :: rest)
+    else (if some a = emptyName then [] else [a]) ++ labelNames emptyName (b :: rest)
+
+/-! ### index format v1: the whole table is kept in memory -/
+
+/-- one entry of a v1 postings offset table (not sorted): (name, value, offset) -/
+abbrev EntryV1 := Nat × Nat × Nat
+
+/-- `init` for FormatV1: the range of every entry ends 4 bytes before the next entry's posting
+    list (whatever its name), the last one before `lastEnd`.  The very last entry is only kept if
+    its name is not the empty string (`if string(lastName) != ""`; `emptyName` is the rank of "") -/
+def rangesV1 (emptyName lastEnd : Nat) : List EntryV1 → List ((Nat × Nat) × Rng)
+  | [] => []
+  | [(n, v, off)] => if n = emptyName then [] else [((n, v), ⟨(off : Int) + 4, (lastEnd : Int) - 4⟩)]
+  | (n, v, off) :: (n', v', off') :: rest =>
+    ((n, v), ⟨(off : Int) + 4, (off' : Int) - 4⟩) :: rangesV1 emptyName lastEnd ((n', v', off') :: rest)
+
+/-- `postingsOffset` for FormatV1.  `omitMissing = true` is the code as it was before /repo 99c10b762
+    (a value that does not exist is skipped: `continue`), `false` the repaired code (NotFoundRange
+    is appended), which is what the driver runs. -/
+def lookupV1 (omitMissing : Bool) (emptyName lastEnd : Nat) (tbl : List EntryV1) (name : Nat) (values : List Nat) : List Rng :=
+  if !(tbl.any fun e => e.1 = name) then [] else      -- unknown name: nil, nil
+  let m := rangesV1 emptyName lastEnd tbl
+  -- a Go map: were a (name, value) pair listed twice, the later entry would win
+  if omitMissing then values.filterMap fun v => m.reverse.lookup (name, v)
+  else values.map fun v => (m.reverse.lookup (name, v)).getD notFound
+
+/-! ### symbols -/
+
+/-- the header's direct-mapped cache of value symbols: slot ↦ (symbol reference, symbol);
+    slots never written hold (0, "") -/
+abbrev SymCache := List (Nat × Nat × List Nat)
+
+def SymCache.get (c : SymCache) (slot : Nat) : Nat × List Nat := (c.lookup slot).getD (0, [])
+
+/-- `BinaryReader.LookupSymbol`.  `table` = index.Symbols.Lookup (third party), `names` = the
+    nameSymbols map (reference ↦ label name), `size` = valueSymbolsCacheSize, `shift` = the v1
+    reference adjustment (0 for v2; references are uint32, the addition wraps).  Returns the symbol
+    (none = error) and the new cache. -/
+def lookupSymbol (table : Nat → Option (List Nat)) (names : List (Nat × List Nat)) (size shift : Nat)
+    (o : Nat) (c : SymCache) : Option (List Nat) × SymCache :=
+  let o := (o + shift) % 4294967296
+  match names.lookup o with
+  | some s => (some s, c)
+  | none =>
+    let slot := o % size
+    let cached := c.get slot
+    if cached.1 = o ∧ cached.2 ≠ [] then (some cached.2, c)
+    else
+      match table o with
+      | none => (none, c)
+      | some s => (some s, (slot, o, s) :: c)
+
+def lookupSymbols (table : Nat → Option (List Nat)) (names : List (Nat × List Nat)) (size shift : Nat) :
+    List Nat → SymCache → List (Option (List Nat))
+  | [], _ => []
+  | o :: os, c =>
+    let (r, c') := lookupSymbol table names size shift o c
+    r :: lookupSymbols table names size shift os c'
+
 end Thanos.IndexHeader
